@@ -162,7 +162,27 @@ func c03FaultScenarios(tier string) []*h.Scenario {
 		}
 		s.Groups[0].Opts.SlowNodeRemovalRate, s.Groups[0].Opts.FastNodeRemovalRate = 1, 1
 		s.MaxEventsPerSlot = 1
-		s.Events = func(hh *h.Hist, slot int) []h.Event { return []h.Event{evRefreshFails(), evRestart()} }
+		s.Events = func(hh *h.Hist, slot int) []h.Event {
+			// the operator may also pin the cloud group to exactly its current size (minimum = maximum = 5)
+			return []h.Event{evRefreshFails(), evRestart(), evASGEdit(g0.ASG.Name, 5, 5)}
+		}
+		out = append(out, s)
+	}
+	// below min_nodes while the only untainted node has just registered and reports no allocatable yet:
+	// the restore does not wait for a utilisation figure
+	{
+		p := c03Case{U: 0, TFresh: 3, Min: 3, Slow: 5, Fast: 9, Band: "fast"}
+		s := c03Build(p)
+		s.Name = "c03.restore-with-unsized-node"
+		s.Slots = 3
+		g0 := s.Groups[0]
+		inner := s.Init
+		s.Init = func(hh *h.Hist) {
+			inner(hh)
+			hh.W.AddNode(hh.W.FindASG(g0.ASG.Name), sim.NodeOpt{Age: 1 * Q, NoAlloc: true})
+		}
+		s.MaxEventsPerSlot = 1
+		s.Events = func(hh *h.Hist, slot int) []h.Event { return []h.Event{evRestart()} }
 		out = append(out, s)
 	}
 	// below min_nodes with tainted nodes to restore: the API rejects every call on one tainted node
